@@ -36,7 +36,7 @@ if t == s: sys.exit(1)
 open(p, 'w').write(t)
 PY
   (cd "$S" && gofmt -l "$file" >/dev/null) || { echo "seeded: $name: edited file does not parse" >&2; bad=1; continue; }
-  out=$(BODYTEST_WORK="$W/work$i" BODYTEST_SHOW=2 "$HERE/run.sh" "$REPO" "$S" 2>&1); rc=$?
+  out=$(BODYTEST_KINDS="${BODYTEST_KINDS:-xxh dec}" BODYTEST_WORK="$W/work$i" BODYTEST_SHOW=2 "$HERE/run.sh" "$REPO" "$S" 2>&1); rc=$?
   summary=$(echo "$out" | grep -E 'bodytest: (xxh|dec): cases=' | sed 's/bodytest: //; s/ (lines.*//' | tr '\n' ';')
   if [ $rc -eq 0 ]; then echo "seeded: $name: NOT DETECTED  [$summary]"; bad=1
   else echo "seeded: $name: detected (rc=$rc)  [$summary]"; echo "$out" | grep -E '^MISMATCH|aborted' | head -2 | cut -c1-220 | sed 's/^/    /'; fi
